@@ -34,6 +34,14 @@ for pid, fl in [("C01","escape"),("C05","control"),("C07","scope"),("C09","inclu
     PROPS[pid] = evalprop(fl)
     PROPS[pid]["lean_modules"] = [pid]
 
+PROPS["C19"] = {
+    "lean_modules": ["C19"],
+    "rule": "stream 'inmem': histories of 3-12 Set/Delete/Exists/Open operations on one InMemLoader over 3 base names, each operation with a random spelling (./, leading/trailing slashes, x/../, //, clean form); non-trivial = contains a Delete. stream 'multi': stacks of 0-3 in-memory loaders with overlapping contents, every path queried with Exists and Open; non-trivial = >= 2 loaders. stream 'fs' (oracle only): OS, http (http.Dir), embed loaders and an OS loader stacked under an empty in-memory loader over one tree (files, nested and empty directories), every canonical path and near-misses.",
+    "trusted_base": COMMON_TB + ["os / net/http / embed file-system semantics: exercised on a real tree (scratch dir outside /repo and /verif, removed afterwards; an embed.FS compiled into the harness), modelled as an abstract tree of regular files, not proved"],
+    "assumptions": ["file-system loaders are only given the clean absolute paths a Set produces (C15)"],
+    "explanation": "Theorems: InMemLoader refines a finite map keyed by normalize(path) under every history (set-then-open, delete under every spelling, spelling independence, keys canonical), Exists implies Open; Multi opens the first loader that has the path and keeps the contract. Tie B: real InMemLoader / Multi vs the model on the same histories; direct oracle: the harness's own record keyed by path.Clean.",
+}
+
 # Texts for MANIFEST.json (gen_manifest.py)
 MANIFEST_TEXT = {
     "C15": {
@@ -75,5 +83,10 @@ MANIFEST_TEXT = {
         "level": "Lean 4 theorems: Runtime.isSet, Arguments.IsSet and the isset built-in with >= 1 argument never produce an error or runtime panic, for every expression, data and fuel; zero values are set, nil values are not; a piped argument is judged by its value. Tie: differential execution over access paths valid/invalid at every depth, direct and piped; constructive oracle.",
         "note": "Exactness (true iff every step exists) is covered by correspondence against the implementation and the oracle, not yet by a theorem against an independent existence spec.",
         "technique": "Lean 4 proof about the evaluator model + differential correspondence + constructive direct oracle",
+    },
+    "C19": {
+        "level": "Machine-checked Lean 4 theorems over all histories of Set/Delete and all spellings: the in-memory loader is a finite map keyed by the normalised path (set-then-open returns the stored content under every spelling with that normal form, delete removes it under every spelling and nothing else, Exists implies Open); Multi.Open is the first stacked loader's Open that succeeds and Multi keeps Exists => Open. File-system loaders are modelled as a tree of regular files; their agreement with os/http/embed is exercised on real trees (partial by nature).",
+        "note": "Trusted: Lean kernel + standard axioms; Path model (C15); the file-system part is observed, not proved.",
+        "technique": "Lean 4 proof (refinement of a finite map; induction over loader stacks) + differential correspondence + direct oracle on real trees",
     },
 }
